@@ -1298,3 +1298,39 @@ def rule_codec_shorttest(ctx, R):
             k += 1
     R.note("non-panicking content tests whose negative outcome reaches a protocol error: %d" % n)
     R.trivial()
+
+
+def rule_read_feed(ctx, R):
+    """bytes handed to the parser are parsed: once Connection::read has fed the parser in this call
+    it reports `data available` -- an error (or `nothing read`) result after a feed would make the
+    connection loop skip the parse step (it parses only on Ok(true)) and the commands received in
+    full would be neither executed nor answered.  Path-sensitive: a flag remembering that something
+    was fed may guard the later exits."""
+    import boolpath
+    b = ctx.prog.need("network::connection::Connection::read")
+    feeds = [i for i, t in b.calls() if callee(t) == "protocol::parser::RespParser::feed"]
+    R.floor("parser_feeds_in_read", len(feeds))
+    bad_exits = {}
+    for x, bb in enumerate(b.bbs):
+        if bb.get("cleanup"):
+            continue
+        for st in bb["s"]:
+            if st["k"] == "=" and st["l"]["l"] == 0 and not st["l"]["p"] and st["r"]["k"] == "agg":
+                if st["r"]["a"].endswith("Result::Err"):
+                    bad_exits[x] = "an error"
+                elif st["r"]["a"].endswith("Result::Ok") and st["r"]["o"] and op_is_const(st["r"]["o"][0]) and st["r"]["o"][0]["c"].replace("const ", "") == "false":
+                    bad_exits[x] = "`nothing read`"
+        t = bb["t"]
+        if t["k"] == "call" and t["d"]["l"] == 0 and re.search(r"from_residual$", callee(t)):
+            bad_exits[x] = "an error"
+    for k, i in enumerate(feeds):
+        nxt = b.term(i)["t"]
+        if nxt < 0:
+            continue
+        ex = boolpath.explore(b, boolpath.Spec(), starts=[nxt])
+        hit = sorted(x for x in bad_exits if x in ex.reached)
+        R.inst(b.fn, "feed#%d" % k, {"at": b.loc(i), "exits_other_than_data_available_reachable_after_the_feed": len(hit)})
+        if hit:
+            R.finding(b.fn, "feed#%d:then-%s" % (k, "error" if bad_exits[hit[0]] == "an error" else "nothing-read"),
+                      "Connection::read can feed received bytes to the parser (line %d) and then return %s (line %d) in the same call: the connection loop parses only after `data available`, so complete commands already in the parser are dropped with the connection / left unanswered" % (b.bb_line(i), bad_exits[hit[0]], b.bb_line(hit[0])), b.loc(hit[0]),
+                      ["bb%d line %d" % (x, b.bb_line(x)) for x in ex.witness(b, hit[0])][-8:])
